@@ -18,8 +18,10 @@ def hexList (a : Array Json) : R (List Bytes) :=
 /-- number of recording sinks behind a branch of the given kind -/
 def sinksOf (kind : String) : Nat := if kind == "open2" || kind == "combine" then 2 else 1
 
-def accepted (min : Int) (gs : Array Json) : Nat :=
-  gs.foldl (fun n g =>
+/-- entries branch `min` accepts from the goroutines g ≡ k (mod K) (K = 1: all goroutines) -/
+def accepted (min : Int) (gs : Array Json) (k K : Nat) : Nat :=
+  (gs.toList.zipIdx).foldl (fun n (g, gi) =>
+    if gi % K != k then n else
     ((g.getArr?).toOption.getD #[]).foldl (fun n a =>
       if strD a "a" "" == "log" && (strD a "fe" "" == "corewrite" || intD a "lvl" 0 ≥ min) then n + 1 else n) n) 0
 
@@ -39,12 +41,22 @@ def handle (op : Json) : R Json := do
     let cfg ← fld op "cfg"
     let sampler := boolD cfg "sampler" false
     let gs := arrD op "gs"
-    let (_, _, sinks) := (arrD cfg "br").toList.foldl (fun (acc : Nat × Nat × List Json) br =>
+    -- loggers > 1: goroutine g logs through logger g % loggers; shared: all loggers are tees over the same cores and
+    -- sinks; otherwise every logger has its own sinks (destination index k·branches + b); via "config": one branch
+    let loggers := max 1 (natD cfg "loggers" 1)
+    let shared := boolD cfg "share" false
+    let viaCfg := strD cfg "via" "" == "config"
+    let brs0 := (arrD cfg "br").toList
+    let brs := if viaCfg then [brs0.headD (obj [("sink", Json.str "reopen"), ("min", jint (-1))])] else brs0
+    let groups : List (Nat × Nat) := if shared then [(0, 1)] else (List.range loggers).map fun k => (k, loggers)
+    let (_, _, sinks) := groups.foldl (fun (acc : Nat × Nat × List Json) kK =>
+      brs.foldl (fun (acc : Nat × Nat × List Json) br =>
         let (b, j, out) := acc
-        let n : Int := if sampler then -1 else (accepted (intD br "min" 0) gs : Nat)
+        let n : Int := if sampler then -1 else (accepted (intD br "min" 0) gs kK.1 kK.2 : Nat)
         let mk (j : Nat) := obj [("b", jnat b), ("j", jnat j), ("n", jint n), ("ok", jbool true), ("lean", jbool true)]
-        let new := (List.range (sinksOf (strD br "sink" "lock"))).map fun i => mk (j + i)
-        (b + 1, j + new.length, out ++ new)) (0, 0, [])
+        let cnt := if viaCfg then 1 else sinksOf (strD br "sink" "lock")
+        let new := (List.range cnt).map fun i => mk (j + i)
+        (b + 1, j + new.length, out ++ new)) acc) (0, 0, [])
     return obj [("panics", jnat 0), ("timeout", jbool false), ("sinks", Json.arr sinks.toArray)]
   | _ => throw s!"unknown op {k}"
 
